@@ -196,6 +196,18 @@ def main():
     wrapped = bool(re.search(r"offset\s+as\s+i64", msgs_fn)) or bool(re.search(r"offset\s+as\s+i64", fn_body(sql_w, "pending_welcomes", "fn:pending_welcomes(sqlite)")))
     boolean("sqlOffsetClamped", not wrapped, "mdk-sqlite-storage messages()/pending_welcomes(): offset is not wrapped into a negative i64")
 
+    # ---- C04: is the id of a received application message recomputed before it is used? ----------------
+    app_rs = strip_comments(non_test(read("crates/mdk-core/src/messages/application.rs")))
+    pam = fn_body(app_rs, "process_application_message", "fn:process_application_message")
+    first_use = re.search(r"\brumor\s*\.\s*id\s*\(\s*\)", pam)
+    if not first_use or "save_message_record" not in pam:
+        raise Missing("fact:rumorIdRecomputed")
+    before = pam[:first_use.start()]
+    cleared = bool(re.search(r"\brumor\s*\.\s*id\s*=\s*None\s*;", before)) or bool(re.search(r"\brumor\s*\.\s*id\s*\.\s*take\s*\(\s*\)", before))
+    verified = bool(re.search(r"\brumor\s*\.\s*verify_id\s*\(\s*\)", before))
+    boolean("rumorIdRecomputed", cleared or verified,
+            "messages/application.rs process_application_message: the rumor id is cleared (recomputed) or verified before `rumor.id()` is used as the storage key")
+
     # ---- C14: tracing sites / error formats / Debug impls go to their own file GeneratedLeak.lean ----
     sys.path.insert(0, os.path.dirname(os.path.abspath(__file__)))
     import gen_leak
